@@ -404,3 +404,25 @@ pub fn pt() -> OptionParser<(bool, Option<OsString>, Vec<OsString>)> {
     construct!(a, b, xs).to_options()
 }
 
+
+/// byte-exact targets: PathBuf and OsString arguments / positional
+pub fn pp() -> OptionParser<(Option<std::path::PathBuf>, Option<OsString>, Vec<std::path::PathBuf>)> {
+    let p = short('p').long("path").argument::<std::path::PathBuf>("P").optional();
+    let o = short('o').long("os").argument::<OsString>("O").optional();
+    let xs = positional::<std::path::PathBuf>("XS").many();
+    construct!(p, o, xs).to_options()
+}
+
+fn rw() -> impl Parser<u32> {
+    let r = short('r').long("rect").req_flag(());
+    let w = short('w').long("width").argument::<u32>("W");
+    construct!(r, w).adjacent().map(|t| t.1)
+}
+
+/// switch evaluated before a small adjacent group, positional after it
+pub fn k5() -> OptionParser<(bool, Option<u32>, Option<u32>)> {
+    let s = short('s').long("sw").switch();
+    let g = rw().optional();
+    let z = positional::<u32>("Z").optional();
+    construct!(s, g, z).to_options()
+}
